@@ -70,6 +70,17 @@ def gen_store(items):
         return D('STACK_MIN_BLOCKS', int(m.group(2)), 'src/indexer/merger.rs write_storable_fields: stack only with at least this many blocks')
     items.append(stack_min_blocks)
 
+    def stack_codec_clause():
+        # third clause of the copy-instead-of-stack condition: the source's decompressor against
+        # the writer's compressor, with the comparison operator as written
+        body = fn_body('src/indexer/merger.rs', 'write_storable_fields')
+        m = re.search(r'\|\|\s*store_reader\.decompressor\(\)\s*(!=|==)\s*store_writer\.compressor\(\)\.into\(\)\s*\{', body)
+        if not m:
+            raise Fail('src/indexer/merger.rs: codec clause `|| store_reader.decompressor() <op> store_writer.compressor().into()` of the stacking guard not found')
+        return D('STACK_CODEC_CLAUSE_IS_NE', 1 if m.group(1) == '!=' else 0,
+                 'src/indexer/merger.rs write_storable_fields: 1 if the codec clause of the copy condition is `decompressor != compressor`, 0 if `==`')
+    items.append(stack_codec_clause)
+
     def decompressor_ids():
         body = fn_body('src/store/decompressors.rs', 'get_id')
         out = []
@@ -182,3 +193,32 @@ def gen_store(items):
         return DL('JSON_NUMBER_DISPATCH', [code[t] for t in order],
                   'order in which From<serde_json::Value> for OwnedValue tries the number types (0 = as_i64, 1 = as_u64, 2 = as_f64)')
     items.append(json_number_dispatch)
+
+    # ---- src/schema/document/default_document.rs: type ids of the values a CompactDoc holds ----
+    def compact_doc_type_ids():
+        f = 'src/schema/document/default_document.rs'
+        text = strip_comments(src(f))
+        m = re.search(r'pub\s+enum\s+ValueType\s*\{(.*?)\}', text, flags=re.S)
+        if not m:
+            raise Fail(f + ': enum ValueType not found')
+        ids = dict((n, int(v)) for n, v in re.findall(r'(\w+)\s*=\s*(\d+)\s*,', m.group(1)))
+        want = ['Null', 'Str', 'U64', 'I64', 'F64', 'Date', 'Facet', 'Bytes', 'IpAddr', 'Bool', 'PreTokStr', 'Object', 'Array']
+        if sorted(ids) != sorted(want):
+            raise Fail(f + ': ValueType variants are %r' % sorted(ids))
+        m2 = re.search(r'\(0\.\.=(\d+)\)\.contains\(&num\)', text)
+        if not m2 or int(m2.group(1)) != max(ids.values()):
+            raise Fail(f + ': ValueType::deserialize does not accept exactly 0..=max discriminant')
+        return '\n'.join(D('CD_TYPE_' + n.upper(), ids[n], f + ' ValueType::' + n) for n in want)
+    items.append(compact_doc_type_ids)
+
+    # ---- src/indexer/segment_serializer.rs: the temporary store of a segment that will be remapped ----
+    def temp_store_settings():
+        f = 'src/indexer/segment_serializer.rs'
+        text = strip_comments(src(f))
+        m = re.search(r'if\s+remapping_required\s*\{.*?StoreWriter::new\(\s*store_write\s*,\s*Compressor::(\w+)\s*,\s*([0-9_]+)\s*,', text, flags=re.S)
+        if not m:
+            raise Fail(f + ': StoreWriter::new of the temporary doc store not found')
+        if m.group(1) != 'None':
+            raise Fail(f + ': the temporary doc store is not written with Compressor::None but ' + m.group(1))
+        return D('TEMP_STORE_BLOCKSIZE', int(m.group(2).replace('_', '')), f + ' block size of the temporary (compressor none) doc store')
+    items.append(temp_store_settings)
